@@ -239,7 +239,7 @@ def run(ctx):
                                   [x for x in (d[3].get("fn_items", []) if d[0] == "call" else []) if x in F.fns and F.fns[x].kind == "Closure"]:
                             cdu = du_of(F.fns[cn])
                             strs |= set(deep_strings(cdu, cdu.val_place((0, ()))))
-                        if "Range" in strs and any(x.endswith("::get_header") for x in strs):
+                        if "Range" in strs and any(re.search(r"::get_header(_\w+)?$", x) for x in strs):
                             if bid == d[1] or bid in c_.reachable_from(d[1]):
                                 ok, why = True, ""
                             else:
